@@ -107,6 +107,29 @@ impl M {
         }
     }
 
+    // Equality including binder names and implicitness; unresolved holes compare by shift only.
+    pub fn same_tree(&self, o: &M) -> bool {
+        match (self, o) {
+            (M::Hole(_, s), M::Hole(_, t)) => s == t,
+            (M::Type, M::Type) | (M::Int, M::Int) | (M::Bool, M::Bool) | (M::True, M::True) | (M::False, M::False) => true,
+            (M::Lit(a), M::Lit(b)) => a == b,
+            (M::Var(n, i), M::Var(m, j)) => i == j && n == m,
+            (M::Lam(n, i, a, b), M::Lam(m, j, c, d)) | (M::Pi(n, i, a, b), M::Pi(m, j, c, d)) => {
+                n == m && i == j && a.same_tree(c) && b.same_tree(d)
+            }
+            (M::App(a, b), M::App(c, d)) => a.same_tree(c) && b.same_tree(d),
+            (M::Bin(o1, a, b), M::Bin(o2, c, d)) => o1 == o2 && a.same_tree(c) && b.same_tree(d),
+            (M::Let(d1, b1), M::Let(d2, b2)) => {
+                d1.len() == d2.len()
+                    && d1.iter().zip(d2).all(|((n, a, d), (m, c, e))| n == m && a.same_tree(c) && d.same_tree(e))
+                    && b1.same_tree(b2)
+            }
+            (M::Neg(a), M::Neg(b)) => a.same_tree(b),
+            (M::If(a, b, c), M::If(d, e, f)) => a.same_tree(d) && b.same_tree(e) && c.same_tree(f),
+            _ => false,
+        }
+    }
+
     // A compact canonical rendering without binder names (state keys, diagnostics).
     pub fn key(&self) -> String {
         let mut s = String::new();
